@@ -18,3 +18,17 @@ Check (C03_egress_loop_fuel_irrelevant : forall (St : Type) (dispatch : St -> St
 
 Check (C03_egress_loop_example :
   poll_loop nat ex_dispatch 10 [2; 0; 3]%nat = Some ([0; 0; 0]%nat, 3%nat)).
+
+Check (C03_egress_loop_shared_env_returns :
+  forall (E St : Type) (dispatch : E -> St -> E * St * dres) (pre : E -> E)
+         (Inv : St -> Prop) (mu : St -> nat),
+  (forall e s e' s' r, Inv s -> dispatch e s = (e', s', r) -> Inv s') ->
+  (forall e s e' s', Inv s -> dispatch e s = (e', s', RSent) -> (mu s' < mu s)%nat) ->
+  (forall e s e' s' r, Inv s -> dispatch e s = (e', s', r) -> r <> RSent -> (mu s' <= mu s)%nat) ->
+  forall fuel e ss, Forall Inv ss -> (total2 St mu ss < fuel)%nat ->
+  exists e' r n, poll_loop2 E St dispatch pre fuel e ss = Some (e', r, n) /\
+                 (n + total2 St mu r <= total2 St mu ss)%nat /\ length r = length ss /\ Forall Inv r).
+
+Check (C03_egress_loop_shared_env_example :
+  poll_loop2 nat nat ex_dispatch2 Nat.pred 10 4%nat [2; 0; 3]%nat = Some (0%nat, [1; 0; 2]%nat, 1%nat) /\
+  poll_loop2 nat nat ex_dispatch2 Nat.pred 10 20%nat [2; 0; 3]%nat = Some (11%nat, [0; 0; 0]%nat, 3%nat)).
